@@ -143,12 +143,23 @@ def run(ctx):
              "namespace n {", "try {", "#pragma asm", "auto x = foo([]() { return 1; });", "f([&](int a) { g(a); }, 2);",
              "std::sort(v.begin(), v.end(), [](int a, int b) { return a < b; });", "x = y ? [] { return 1; }() : 2;", "int a[] = { 1, 2, 3 };", "foo(a, b,",
              "class A { int f() { return 1; } };", "if (a) b; else c;", "return (a);", "do x++; while (a);", "#define M(a) do { a; } while (0)", "using T = int;", "/* *INDENT-OFF* */\nx", "operator", "void g()", "if (a)\n", "else", "} else {", "#endif", "\\", "#", "@", "$"]
+    frags += ["int a; /*x", "int a; /*", "int a; /**/", "int a; //", "int a; /* x *", "f(); /*x*/", "#define A /*x", "x = 1; // c\\"]
+    cmt_all = "".join("%s=true\n" % o["name"] for o in cfggen.registry(unc) if o["name"].startswith("cmt_") and o["kind"] == "bool")
     for fr in frags:
         for lg in LANG_EXT:
-            for cfgt in ["", "cmt_width=1\ncode_width=1\n", "nl_max=1\nmod_full_brace_if=add\nmod_pawn_semicolon=true\n"] + (fulls if lg in ("C", "CPP") else fulls[:3]):
+            for cfgt in ["", "cmt_width=1\ncode_width=1\n", "nl_max=1\nmod_full_brace_if=add\nmod_pawn_semicolon=true\n", cmt_all] + (fulls if lg in ("C", "CPP") else fulls[:3]):
                 i = len(jobs)
                 jobs.append((runner, tmp, i, fr.encode(), lg, cfgt, False, use_asan))
                 meta[i] = ("frag", fr.encode(), lg, cfgt)
+    # capacity probes: every bracket kind nested deeper than any fixed-size table (1024 in check_template, frame stacks), closed and open
+    for opener, closer in (("T<a", ">"), ("(", ")"), ("[", "]"), ("{", "}"), ("f(", ")"), ("if (a) ", ""), ("a ? b : ", ""), ("!", ""), ("*", ""), ("#if A\n", "#endif\n")):
+        for depth in ((1100,) if quick else (300, 1100, 5000)):
+            for closed in (True, False):
+                text = "x = " * (opener in ("(", "[", "!", "*", "a ? b : ")) + opener * depth + "q" + (closer * depth if closed else "") + ";\n"
+                for lg in (("CPP", "C") if quick else ("CPP", "C", "CS", "JAVA", "D", "OC")):
+                    i = len(jobs)
+                    jobs.append((runner, tmp, i, text.encode(), lg, "", False, use_asan))
+                    meta[i] = ("deep %r x %d" % (opener, depth), text.encode(), lg, "")
     # well-formed programs under width / comment pressure (loop termination)
     for lang in hazard.DENSE:
         for cw in ((1, 20) if quick else (1, 5, 20, 40)):
